@@ -150,6 +150,17 @@ Definition closed (s : store) (ids : list nat) : Prop :=
 Definition Repr (s : store) (o : llist) (xs : list (option D)) : Prop :=
   exists ids, Rep s o ids xs /\ closed s ids.
 
+Lemma Repr_unfold : forall s o xs,
+  Repr s o xs <->
+  exists ids, ll_head o = hd_ptr ids None /\ seg s ids xs None /\ NoDup ids /\
+              ll_len o = Z.of_nat (length xs) /\
+              (forall i n, nth_error s i = Some (Some n) -> In i ids).
+Proof.
+  intros s o xs. unfold Repr, Rep, closed. split.
+  - intros (ids & (a & b & c & d) & e). exists ids. auto.
+  - intros (ids & a & b & c & d & e). exists ids. auto.
+Qed.
+
 Lemma Repr_nil : Repr [] ll_new [].
 Proof.
   exists []. split.
